@@ -56,6 +56,10 @@ type c05PRConfig struct {
 	ku bool
 	// depth[0|1]: BFS depth in the quick | thorough tier
 	depth [2]int
+	// jumps: distances between consecutive packet numbers the sender may choose from
+	jumps []int64
+	// fourBytes: the encoder "always 4 bytes" is in the alphabet
+	fourBytes bool
 }
 
 const (
@@ -64,21 +68,21 @@ const (
 	c05PRMaxUnacked = int64(1) << 31 // RFC 9000 offers no encoding beyond (see assumptions)
 )
 
-// distances between consecutive packet numbers of the sender (1 = no gap); quick tier: the first three
-var c05PRJumps = [...]int64{1, 100, 25000, 127, 6_000_000, 1_600_000_000}
-
-const c05PRQuickJumps = 3
+// distances between consecutive packet numbers of the sender (1 = no gap): around half of the 1-, 2-,
+// 3- and 4-byte encoding windows (128, 32768, 2^23, 2^31)
+var (
+	c05PRJumpsNear = []int64{1, 100, 25000}
+	c05PRJumpsEdge = []int64{1, 127, 6_000_000, 1_600_000_000}
+	c05PRJumpsWide = []int64{1, 100, 25000, 6_000_000}
+)
 
 var c05PREncNames = [...]string{"rfc-shortest", "repo", "4-bytes"}
 
 type c05PRShared struct {
-	cfg   c05PRConfig
-	jumps []int64
-	// fourBytes: the encoder "always 4 bytes" is in the alphabet (thorough tier)
-	fourBytes bool
-	cid       [2]protocol.ConnectionID // [0] destination, [1] source (long headers)
-	sec       []byte                   // traffic secret of the sender's direction (not Initial)
-	gen       [2]ref5.Keys             // reference keys of the sender, by key phase
+	cfg c05PRConfig
+	cid [2]protocol.ConnectionID // [0] destination, [1] source (long headers)
+	sec []byte                   // traffic secret of the sender's direction (not Initial)
+	gen [2]ref5.Keys             // reference keys of the sender, by key phase
 }
 
 type c05PRPkt struct {
@@ -106,12 +110,8 @@ type c05PRInst struct {
 	outcome   string
 }
 
-func c05PRNewShared(cfg c05PRConfig, thorough bool) *c05PRShared {
-	sh := &c05PRShared{cfg: cfg, jumps: c05PRJumps[:c05PRQuickJumps]}
-	if thorough {
-		sh.jumps = c05PRJumps[:]
-		sh.fourBytes = true
-	}
+func c05PRNewShared(cfg c05PRConfig) *c05PRShared {
+	sh := &c05PRShared{cfg: cfg}
 	sh.cid[0] = protocol.ParseConnectionID([]byte{0xd0, 0x11, 0x22, 0x33, 0x44, 0x55, 0x66, 0x77})
 	sh.cid[1] = protocol.ParseConnectionID([]byte{0xd1, 0x01, 0x02, 0x03})
 	v := c05Version(cfg.version)
@@ -192,7 +192,7 @@ func (in *c05PRInst) lens(pn int64) (out [3]int) {
 	if l := int(protocol.PacketNumberLengthForHeader(protocol.PacketNumber(pn), la)); l != short {
 		out[1] = l
 	}
-	if in.sh.fourBytes && out[0] != 4 && out[1] != 4 {
+	if in.sh.cfg.fourBytes && out[0] != 4 && out[1] != 4 {
 		out[2] = 4
 	}
 	return
@@ -205,7 +205,7 @@ func (in *c05PRInst) Ops() []explore.Op {
 		ops = append(ops, explore.Op{N: "confirm"})
 	}
 	if len(in.flight) < c05PRWindow {
-		for j, d := range in.sh.jumps {
+		for j, d := range in.sh.cfg.jumps {
 			for enc, l := range in.lens(in.nextPN + d - 1) {
 				if l != 0 {
 					ops = append(ops, explore.Op{N: "send", A: j, B: enc})
@@ -263,7 +263,7 @@ func (in *c05PRInst) key(what string, p *c05PRPkt) string {
 }
 
 func (in *c05PRInst) send(jump, enc int) *explore.Fail {
-	pn := in.nextPN + in.sh.jumps[jump] - 1
+	pn := in.nextPN + in.sh.cfg.jumps[jump] - 1
 	pnLen := in.lens(pn)[enc]
 	explore.Must(pnLen != 0, "send(%d,%d) is not enabled", jump, enc)
 	in.nextPN = pn + 1
@@ -433,7 +433,7 @@ func c05PNReorderPart(name string, cfg c05PRConfig) explore.Part {
 		// package-level intervals, set for the duration of this part (parts run one after the other)
 		FirstKeyUpdateInterval = c05PRKUFirst
 		SetKeyUpdateInterval(1 << 40)
-		sh := c05PRNewShared(cfg, e.Thorough())
+		sh := c05PRNewShared(cfg)
 		depth := cfg.depth[0]
 		if e.Thorough() {
 			depth = cfg.depth[1]
@@ -451,7 +451,7 @@ func c05PNReorderPart(name string, cfg c05PRConfig) explore.Part {
 			MaxDepth:         depth,
 			PanicIsViolation: true,
 			Rule: fmt.Sprintf("BFS over one real %s sealer and the real opener of its peer (%s, %s); alphabet:%s send(jump, enc) [next packet number = previous + jump, jump in %v; packet number length chosen by enc in {shortest RFC 9000 17.1 allows given the largest packet number the sender knows to be acknowledged (1 byte possible), protocol.PacketNumberLengthForHeader, 4 bytes}; real header serialisation, Seal, EncryptHeader; compared bit by bit with ref5.Protect], deliver(i, ack) of any of the <=%d packets in flight [DecryptHeader, DecodePacketNumber, Open as in packetUnpacker; ack=1: the acknowledgement of everything processed reaches the sender at once], drop(i), ack [the acknowledgement reaches the sender later]; oracle: ref5 (RFC 9000 A.3 + RFC 9001) unprotects the packet given the LARGEST PACKET NUMBER PROCESSED SO FAR; when it recovers the true packet number the real opener must open the packet to exactly the protected header, packet number and payload, otherwise the property is silent; state = canon(opener [+ both updatableAEADs]) + model (next pn, largest acked, largest processed, key phases) + packets in flight",
-				c05LvNames[cfg.level], c05VName(cfg.version), suite, ku, sh.jumps, c05PRWindow),
+				c05LvNames[cfg.level], c05VName(cfg.version), suite, ku, cfg.jumps, c05PRWindow),
 		}
 	}
 	return explore.Part{
